@@ -1,0 +1,39 @@
+//go:build verif
+
+package pql
+
+import (
+	"errors"
+	"strings"
+)
+
+// This file is only compiled with the "verif" build tag.
+// It exposes internals to the verification harness and changes no behaviour.
+
+// VerifQuoteSQLString exposes quoteSQLString.
+func VerifQuoteSQLString(s string) string {
+	sb := new(strings.Builder)
+	quoteSQLString(sb, s)
+	return sb.String()
+}
+
+// VerifQuoteIdentifier exposes quoteIdentifier.
+func VerifQuoteIdentifier(s string) string {
+	sb := new(strings.Builder)
+	quoteIdentifier(sb, s)
+	return sb.String()
+}
+
+// VerifLinecol exposes linecol.
+func VerifLinecol(source string, pos int) (line, col int) {
+	return linecol(source, pos)
+}
+
+// VerifCompileErrorSpan returns the span recorded in a compile error, if err is one.
+func VerifCompileErrorSpan(err error) (start, end int, ok bool) {
+	var ce *compileError
+	if !errors.As(err, &ce) {
+		return 0, 0, false
+	}
+	return ce.span.Start, ce.span.End, true
+}
